@@ -28,6 +28,18 @@ RULES=[ # (property, key regex, commit subject prefix, what)
  ('C07', r'absent-part-guard:writer\.', 'fix: WriteStreamWithOptions panicked', 'WriteStreamWithOptions dereferenced nil options and invoked a nil serializer returned by GetFormatSerializer'),
  ('C01', r'loop-totality:serializers\.\(\*SPDX23\)\.buildPackages/Nodes#exit:break', 'fix: SPDX 2.3 serializer dropped', 'a package with two primary purposes truncated the SPDX package list (break out of the node loop)'),
  ('C03', r'loop-totality:serializers\.\(\*SPDX23\)\.buildPackages/Nodes#exit:break', 'fix: SPDX 2.3 serializer dropped', 'a package with two primary purposes truncated the SPDX package list (break out of the node loop)'),
+ ('C09', r'merge-callee:sbom\.\(\*NodeList\)\.Add', 'fix: NodeList.Add augmented', 'Add called Augment on a node with itself: in-place add never filled empty attributes'),
+ ('C17', r'package-state:reader\.unserializers@reader\.GetFormatUnserializer', 'fix: GetFormatUnserializer read', 'GetFormatUnserializer read the registry map without regMtx while Register/Unregister write it under the lock'),
+ ('C17', r'(package-state|no-hidden-state):formats\.state', 'fix: the line-based format sniffer', 'the line-based sniffer reset and updated a package-level scratch map on every SniffReader call: concurrent tag-value sniffing races (concurrent map writes)'),
+ ('C17', r'published-default:', 'fix: every Reader and Writer shared', 'New published the package-level defaultOptions pointer into every instance'),
+ ('C18', r'published-default:', 'fix: every Reader and Writer shared', 'New published the package-level defaultOptions pointer into every instance: an option given to one instance changed all others'),
+ ('C18', r'per-call-reads-argument:(writer\.\(\*Writer\)\.Store|reader\.\(\*Reader\)\.Retrieve)', 'fix: every Reader and Writer shared', 'Store/Retrieve passed the package default options instead of the instance\'s'),
+ ('C18', r'per-call-reads-argument:reader\.\(\*Reader\)\.ParseStreamWithOptions', 'fix: ParseStreamWithOptions ignored', 'ParseStreamWithOptions read format options from the reader instead of the per-call options'),
+ ('C19', r'no-process-exit:', 'fix: Retrieve terminated', 'Retrieve called logrus.Fatal on a missing or corrupt entry'),
+ ('C19', r'directory-mode:', 'fix: Store created the data directory', 'MkdirAll with mode 0644 created an unusable directory'),
+ ('C19', r'retrieve-validates:', 'fix: Retrieve returned an empty document', 'Retrieve returned an empty document for an empty or foreign entry (no identity check); decode failures exited the process'),
+ ('C20', r'(no-inplace-write|replace-protocol):', 'fix: Store overwrote entries in place', 'os.WriteFile on the final path: a crash between truncation and write left an empty or partial entry'),
+ ('C08', r'removal-updates-roots:', 'fix: RemoveNodes left', 'RemoveNodes left removed identifiers in RootElements'),
  ('C09', r'self-merge:', 'fix: NodeList.Add augmented', 'Add called Augment on a node with itself: in-place add never filled empty attributes'),
  ('C08', r'removal-updates-roots:', 'fix: RemoveNodes left', 'RemoveNodes left removed identifiers in RootElements'),
 ]
